@@ -58,6 +58,8 @@ func runC16(r *Run) {
 		c16Foreign(r)
 	}
 	c16SlowReader(r)
+	// the server side demultiplexed per client: clients come and go with calls in flight (c18c.go)
+	c18CancelWithUnaryInFlight(r)
 	// dial on demand AGAIN after the dialled connection has failed: the envelope the proxy then accepts
 	// for the name reaches the newly dialled connection
 	if r.Want("redial") {
